@@ -367,3 +367,406 @@ func c19r9(p *Program, r *Report) {
 		r.OK(fi.Decl, "(UUID).Time never returns the zero time", "no return of time.Time{}")
 	}
 }
+
+// ---------------------------------------------------------------------------
+// Generic slips (checked in every function of the module's root package and its internal packages)
+
+// lostErrors: an error produced by a call and stored in a variable is examined (tested, returned, passed on) before
+// the variable is assigned again and before the function ends. In a loop `v[i], err = f()` followed by one test
+// after the loop only the last error is seen.
+func lostErrors(p *Program, r *Report, scope func(*FuncInfo) bool, tag string) int {
+	n := 0
+	for _, fi := range p.SortedFuncs() {
+		if fi.Decl.Body == nil || !scope(fi) {
+			continue
+		}
+		info := fi.Pkg.TypesInfo
+		// candidate sites: assignments `..., e = call(...)` / `e := call()` to a local error variable
+		type site struct {
+			as  *ast.AssignStmt
+			obj types.Object
+		}
+		var sites []site
+		inspectNoLit(fi.Decl.Body, func(x ast.Node) bool {
+			as, ok := x.(*ast.AssignStmt)
+			if !ok || len(as.Rhs) != 1 {
+				return true
+			}
+			if _, isCall := ast.Unparen(as.Rhs[0]).(*ast.CallExpr); !isCall {
+				return true
+			}
+			for _, l := range as.Lhs {
+				id, isId := l.(*ast.Ident)
+				if !isId || id.Name == "_" {
+					continue
+				}
+				obj := info.Defs[id]
+				if obj == nil {
+					obj = info.Uses[id]
+				}
+				v, isVar := obj.(*types.Var)
+				if !isVar || !isErrorType(v.Type()) || v.IsField() || v.Parent() == v.Pkg().Scope() {
+					continue
+				}
+				sites = append(sites, site{as, obj})
+			}
+			return true
+		})
+		if len(sites) == 0 {
+			continue
+		}
+		var g *Graph
+		// named results are read by a bare return
+		named := map[types.Object]bool{}
+		if fi.Decl.Type.Results != nil {
+			for _, f := range fi.Decl.Type.Results.List {
+				for _, nm := range f.Names {
+					named[info.Defs[nm]] = true
+				}
+			}
+		}
+		// captured by a closure (deferred handlers read it later): not judged
+		captured := map[types.Object]bool{}
+		ast.Inspect(fi.Decl.Body, func(x ast.Node) bool {
+			if lit, isLit := x.(*ast.FuncLit); isLit {
+				ast.Inspect(lit.Body, func(y ast.Node) bool {
+					if id, isId := y.(*ast.Ident); isId && info.Uses[id] != nil {
+						captured[info.Uses[id]] = true
+					}
+					return true
+				})
+				return false
+			}
+			return true
+		})
+		reads := func(node ast.Node, obj types.Object, skipLHSOf *ast.AssignStmt) bool {
+			found := false
+			ast.Inspect(node, func(x ast.Node) bool {
+				if _, isLit := x.(*ast.FuncLit); isLit {
+					return false
+				}
+				id, isId := x.(*ast.Ident)
+				if !isId || info.Uses[id] != obj {
+					return true
+				}
+				// an occurrence on the left of an assignment is a write
+				if as, isAs := p.Parent(id).(*ast.AssignStmt); isAs {
+					for _, l := range as.Lhs {
+						if l == ast.Expr(id) {
+							return true
+						}
+					}
+				}
+				found = true
+				return true
+			})
+			return found
+		}
+		// one dataflow per variable: which sites' errors are pending, which were overwritten while pending
+		byObj := map[types.Object][]int{}
+		var objs []types.Object
+		for i, s := range sites {
+			if captured[s.obj] {
+				continue
+			}
+			if _, seen := byObj[s.obj]; !seen {
+				objs = append(objs, s.obj)
+			}
+			byObj[s.obj] = append(byObj[s.obj], i)
+		}
+		for _, obj := range objs {
+			idxs := byObj[obj]
+			if len(idxs) > 60 {
+				idxs = idxs[:60]
+			}
+			siteBit := map[*ast.AssignStmt]uint64{}
+			for k, i := range idxs {
+				siteBit[sites[i].as] |= 1 << uint(k)
+			}
+			otherWrites := false
+			inspectNoLit(fi.Decl.Body, func(x ast.Node) bool {
+				if as2, isAs := x.(*ast.AssignStmt); isAs && siteBit[as2] == 0 {
+					for _, l := range as2.Lhs {
+						if id, isId := l.(*ast.Ident); isId && (info.Uses[id] == obj || info.Defs[id] == obj) {
+							otherWrites = true
+						}
+					}
+				}
+				return true
+			})
+			if len(idxs) == 1 && !otherWrites {
+				s := sites[idxs[0]]
+				definesHere := false
+				for _, l := range s.as.Lhs {
+					if id, isId := l.(*ast.Ident); isId && info.Defs[id] == obj && s.as.Tok == token.DEFINE {
+						definesHere = true
+					}
+				}
+				if definesHere || !p.inLoop(s.as, fi.Decl) {
+					n++
+					r.OK(s.as, tag+": "+fi.Name+" examines the error of "+exprStr(s.as.Rhs[0])+" before "+obj.Name()+" is assigned again", "the only assignment of "+obj.Name())
+					continue
+				}
+			}
+			siblings := map[*ast.AssignStmt][]types.Object{}
+			for _, i := range idxs {
+				s := sites[i]
+				for _, l := range s.as.Lhs {
+					if id, isId := l.(*ast.Ident); isId && id.Name != "_" {
+						so := info.Defs[id]
+						if so == nil {
+							so = info.Uses[id]
+						}
+						if so != nil && so != obj {
+							siblings[s.as] = append(siblings[s.as], so)
+						}
+					}
+				}
+			}
+			readCache := map[ast.Node]bool{}
+			readsObj := func(node ast.Node) bool {
+				if v, ok := readCache[node]; ok {
+					return v
+				}
+				v := reads(node, obj, nil)
+				readCache[node] = v
+				return v
+			}
+			type lst struct{ pending, lost uint64 }
+			if g == nil {
+				g = p.GraphOf(fi)
+			}
+			sol := Solve(g, Lattice[lst]{
+				Join: func(a, b lst) lst { return lst{a.pending | b.pending, a.lost | b.lost} },
+				Eq:   func(a, b lst) bool { return a == b },
+				Step: func(st lst, step Step) lst {
+					var node ast.Node
+					switch step.Kind {
+					case StNode, StCond, StCase:
+						node = step.Node
+					default:
+						return st
+					}
+					if node == nil {
+						return st
+					}
+					if st.pending != 0 && readsObj(node) {
+						st.pending = 0
+					}
+					if st.pending != 0 && step.Kind == StCond {
+						// (value, error) pairs: looking at the value that came with the error is looking at the outcome
+						for as2, sibs := range siblings {
+							if st.pending&siteBit[as2] == 0 {
+								continue
+							}
+							for _, sib := range sibs {
+								if reads(node, sib, nil) {
+									st.pending &^= siteBit[as2]
+								}
+							}
+						}
+					}
+					if as, isAs := node.(*ast.AssignStmt); isAs {
+						for _, l := range as.Lhs {
+							id, isId := l.(*ast.Ident)
+							if !isId || (info.Defs[id] != obj && info.Uses[id] != obj) {
+								continue
+							}
+							bit := siteBit[as]
+							if bit != 0 && as.Tok == token.DEFINE && info.Defs[id] == obj {
+								st.pending = bit // a variable declared in a loop body is a new one in every iteration
+								continue
+							}
+							st.lost |= st.pending
+							st.pending = bit
+						}
+					}
+					if rs, isR := node.(*ast.ReturnStmt); isR && len(rs.Results) == 0 && named[obj] {
+						st.pending = 0
+					}
+					return st
+				},
+			})
+			var lost uint64
+			for _, e := range g.Exits() {
+				if e.Kind == ExitPanic {
+					continue
+				}
+				var st lst
+				var ok bool
+				if e.Node != nil {
+					st, ok = sol.After(e.Node)
+				} else {
+					st, ok = sol.AtExit(e)
+				}
+				if ok {
+					lost |= st.lost
+				}
+			}
+			for k, i := range idxs {
+				s := sites[i]
+				n++
+				r.Check(lost&(1<<uint(k)) == 0, s.as, tag+": "+fi.Name+" examines the error of "+exprStr(s.as.Rhs[0])+" before "+obj.Name()+" is assigned again", "tested / returned / passed on before the next assignment on every path",
+					"the error stored in "+obj.Name()+" by "+exprStr(s.as.Rhs[0])+" can be overwritten by a later assignment (for instance the next iteration of the loop it is in) before anything looks at it: a failure is silently dropped and the value that goes with it is used")
+			}
+		}
+	}
+	return n
+}
+
+// deadErrorBranches: in an if / else-if chain, a condition that the guard facts already decide as false guards code
+// that can never run. When that code is error handling (it mentions an error value or calls a handler) the usual
+// cause is a variable shadowed by the `if v := ..` of the first branch: the second test looks at the wrong variable.
+func deadErrorBranches(p *Program, r *Report, scope func(*FuncInfo) bool, tag string) int {
+	n := 0
+	for _, fi := range p.SortedFuncs() {
+		if fi.Decl.Body == nil || !scope(fi) {
+			continue
+		}
+		info := fi.Pkg.TypesInfo
+		var g *Graph
+		inspectNoLit(fi.Decl.Body, func(x ast.Node) bool {
+			ifs, ok := x.(*ast.IfStmt)
+			if !ok {
+				return true
+			}
+			els, isIf := ifs.Else.(*ast.IfStmt)
+			if !isIf || els.Init != nil {
+				return true
+			}
+			// only conditions that test an error-typed value
+			testsErr := false
+			ast.Inspect(els.Cond, func(y ast.Node) bool {
+				if id, isId := y.(*ast.Ident); isId {
+					if v, isVar := info.Uses[id].(*types.Var); isVar && isErrorType(v.Type()) {
+						testsErr = true
+					}
+				}
+				return true
+			})
+			if !testsErr {
+				return true
+			}
+			n++
+			// the same test as the branch before it (which would have been taken): never true here
+			same := strings.ReplaceAll(exprStr(ifs.Cond), " ", "") == strings.ReplaceAll(exprStr(els.Cond), " ", "")
+			if !same {
+				if g == nil {
+					g = p.GraphOf(fi)
+				}
+				if f, reach := g.GuardFacts().Before(els.Cond); reach {
+					if v, known := f.Known(els.Cond); known && !v {
+						same = true
+					}
+				}
+			}
+			r.Check(!same, els, tag+": "+fi.Name+" else-if on "+exprStr(els.Cond)+" can be taken", "not decided by the branch before it",
+				"the condition "+exprStr(els.Cond)+" of this else-if is already known to be false where it is evaluated (the branch before it tested the same thing): its error handling never runs - typically a variable shadowed by the `if v := ...` of the first branch, so the error that was meant is never reported")
+			return true
+		})
+	}
+	return n
+}
+
+// shadowedErrors: `if err := f(); err != nil { .. }` declares a new err. When an outer err of the same function is
+// read after that statement and the if-body can fall out of its end (it handles the error without leaving), the
+// code after it goes on with the outer variable, which never received f's error.
+func shadowedErrors(p *Program, r *Report, scope func(*FuncInfo) bool, tag string) int {
+	n := 0
+	for _, fi := range p.SortedFuncs() {
+		if fi.Decl.Body == nil || !scope(fi) {
+			continue
+		}
+		info := fi.Pkg.TypesInfo
+		inspectNoLit(fi.Decl.Body, func(x ast.Node) bool {
+			ifs, ok := x.(*ast.IfStmt)
+			if !ok || ifs.Init == nil {
+				return true
+			}
+			as, isAs := ifs.Init.(*ast.AssignStmt)
+			if !isAs || as.Tok != token.DEFINE {
+				return true
+			}
+			for _, l := range as.Lhs {
+				id, isId := l.(*ast.Ident)
+				if !isId || id.Name == "_" {
+					continue
+				}
+				inner, _ := info.Defs[id].(*types.Var)
+				if inner == nil || !isErrorType(inner.Type()) {
+					continue
+				}
+				// an outer variable of the same name, visible at the if statement
+				_, outerObj := inner.Parent().Parent().LookupParent(id.Name, ifs.Pos())
+				outer, _ := outerObj.(*types.Var)
+				if outer == nil || outer == inner || !isErrorType(outer.Type()) || outer.Parent() == outer.Pkg().Scope() {
+					continue
+				}
+				n++
+				// does the body always leave (return / continue / break / goto / panic)?
+				leaves := p.terminates(info, ifs.Body.List)
+				if !leaves && len(ifs.Body.List) > 0 {
+					if br, isBr := ifs.Body.List[len(ifs.Body.List)-1].(*ast.BranchStmt); isBr && (br.Tok == token.CONTINUE || br.Tok == token.BREAK || br.Tok == token.GOTO) {
+						leaves = true
+					}
+				}
+				// is the outer variable read after the if statement?
+				readAfter := false
+				ast.Inspect(fi.Decl.Body, func(y ast.Node) bool {
+					uid, isU := y.(*ast.Ident)
+					if !isU || info.Uses[uid] != types.Object(outer) || uid.Pos() < ifs.End() {
+						return true
+					}
+					if pas, isPA := p.Parent(uid).(*ast.AssignStmt); isPA {
+						for _, pl := range pas.Lhs {
+							if pl == ast.Expr(uid) {
+								return true
+							}
+						}
+					}
+					readAfter = true
+					return true
+				})
+				// a named result read by a bare return counts as well
+				if !readAfter && fi.Decl.Type.Results != nil {
+					for _, f := range fi.Decl.Type.Results.List {
+						for _, nm := range f.Names {
+							if info.Defs[nm] == types.Object(outer) {
+								ast.Inspect(fi.Decl.Body, func(y ast.Node) bool {
+									if rs, isR := y.(*ast.ReturnStmt); isR && len(rs.Results) == 0 && rs.Pos() > ifs.End() {
+										readAfter = true
+									}
+									return true
+								})
+							}
+						}
+					}
+				}
+				r.Check(leaves || !readAfter, ifs, tag+": "+fi.Name+" `if "+id.Name+" := ..` at "+p.Pos(ifs)+" does not hide an error the code after it relies on", "the body leaves the function / loop, or the outer "+id.Name+" is not read afterwards",
+					"the `if "+id.Name+" := "+exprStr(as.Rhs[0])+"` declares a new "+id.Name+"; its body does not leave, and the outer "+id.Name+" is read afterwards: the code after the if goes on with an error variable that never received this call's error (a failed step is handed on as a success)")
+			}
+			return true
+		})
+	}
+	return n
+}
+
+
+// c18r8: a body that could not be decompressed must not be handed on as a frame: in the receive and finish paths no
+// error is hidden by a shadowing `if err := ..` or overwritten before it is examined (=C05.R11/R12 on those paths).
+func c18r8(p *Program, r *Report) {
+	units := map[*FuncInfo]bool{}
+	for _, name := range []string{"(*Conn).recv", "(*framer).readFrame", "(*framer).finish", "(*Conn).exec"} {
+		if fi := r.NeedFunc(name); fi != nil {
+			for _, u := range p.unitsOf(fi) {
+				units[u] = true
+			}
+		}
+	}
+	scope := func(fi *FuncInfo) bool { return units[fi] }
+	n := shadowedErrors(p, r, scope, "frame path")
+	n += lostErrors(p, r, scope, "frame path")
+	if n == 0 {
+		r.Unresolved("no error handling found in the frame receive / finish path")
+	}
+}
